@@ -1286,12 +1286,26 @@ func (s *swamp) createMetaForIncrementResponse(treasureObj treasure.Treasure) *I
 
 }
 
+// dropUnsavedInFlight removes a treasure that CreateTreasure parked in creatingTreasures but that
+// was never saved (e.g. an Increment whose condition failed on a missing key). Left there, the
+// half-initialised object — value 0 of the requested type plus the "if not exist" metadata — would
+// be handed out by the next CreateTreasure for the same key: a later Set/Increment/Push would then
+// inherit that metadata or fail with a type error although the key does not exist.
+// PatchFields does the same for its own in-flight treasures.
+func (s *swamp) dropUnsavedInFlight(key string, t treasure.Treasure) {
+	if s.beaconKey.Get(key) != t {
+		s.creatingTreasures.CompareAndDelete(key, t)
+	}
+}
+
 func (s *swamp) IncrementUint8(key string, i uint8, condition *IncrementUInt8Condition, metadataRequestIfNotExist *IncrementMetadataRequest, metadataRequestIfExist *IncrementMetadataRequest) (newValue uint8, incremented bool, metadataResponse *IncrementMetadataResponse, err error) {
 
 	// get-or-create the treasure for this key
 	treasureObj := s.beaconKey.Get(key)
 	if treasureObj == nil {
 		treasureObj = s.CreateTreasure(key)
+		// if this call does not save the new treasure (failed condition), un-park it again
+		defer s.dropUnsavedInFlight(key, treasureObj)
 	}
 
 	// acquire the guard before inspecting or mutating the treasure. The existence/type check
@@ -1372,6 +1386,8 @@ func (s *swamp) IncrementUint16(key string, i uint16, condition *IncrementUInt16
 	treasureObj := s.beaconKey.Get(key)
 	if treasureObj == nil {
 		treasureObj = s.CreateTreasure(key)
+		// if this call does not save the new treasure (failed condition), un-park it again
+		defer s.dropUnsavedInFlight(key, treasureObj)
 	}
 
 	guardID := treasureObj.StartTreasureGuard(true)
@@ -1446,6 +1462,8 @@ func (s *swamp) IncrementUint32(key string, i uint32, condition *IncrementUInt32
 	treasureObj := s.beaconKey.Get(key)
 	if treasureObj == nil {
 		treasureObj = s.CreateTreasure(key)
+		// if this call does not save the new treasure (failed condition), un-park it again
+		defer s.dropUnsavedInFlight(key, treasureObj)
 	}
 
 	guardID := treasureObj.StartTreasureGuard(true)
@@ -1519,6 +1537,8 @@ func (s *swamp) IncrementUint64(key string, i uint64, condition *IncrementUInt64
 	treasureObj := s.beaconKey.Get(key)
 	if treasureObj == nil {
 		treasureObj = s.CreateTreasure(key)
+		// if this call does not save the new treasure (failed condition), un-park it again
+		defer s.dropUnsavedInFlight(key, treasureObj)
 	}
 
 	guardID := treasureObj.StartTreasureGuard(true)
@@ -1592,6 +1612,8 @@ func (s *swamp) IncrementInt8(key string, i int8, condition *IncrementInt8Condit
 	treasureObj := s.beaconKey.Get(key)
 	if treasureObj == nil {
 		treasureObj = s.CreateTreasure(key)
+		// if this call does not save the new treasure (failed condition), un-park it again
+		defer s.dropUnsavedInFlight(key, treasureObj)
 	}
 
 	guardID := treasureObj.StartTreasureGuard(true)
@@ -1665,6 +1687,8 @@ func (s *swamp) IncrementInt16(key string, i int16, condition *IncrementInt16Con
 	treasureObj := s.beaconKey.Get(key)
 	if treasureObj == nil {
 		treasureObj = s.CreateTreasure(key)
+		// if this call does not save the new treasure (failed condition), un-park it again
+		defer s.dropUnsavedInFlight(key, treasureObj)
 	}
 
 	guardID := treasureObj.StartTreasureGuard(true)
@@ -1738,6 +1762,8 @@ func (s *swamp) IncrementInt32(key string, i int32, condition *IncrementInt32Con
 	treasureObj := s.beaconKey.Get(key)
 	if treasureObj == nil {
 		treasureObj = s.CreateTreasure(key)
+		// if this call does not save the new treasure (failed condition), un-park it again
+		defer s.dropUnsavedInFlight(key, treasureObj)
 	}
 
 	guardID := treasureObj.StartTreasureGuard(true)
@@ -1812,6 +1838,8 @@ func (s *swamp) IncrementInt64(key string, i int64, condition *IncrementInt64Con
 	treasureObj := s.beaconKey.Get(key)
 	if treasureObj == nil {
 		treasureObj = s.CreateTreasure(key)
+		// if this call does not save the new treasure (failed condition), un-park it again
+		defer s.dropUnsavedInFlight(key, treasureObj)
 	}
 
 	guardID := treasureObj.StartTreasureGuard(true)
@@ -1897,6 +1925,8 @@ func (s *swamp) IncrementFloat32(key string, f float32, condition *IncrementFloa
 	treasureObj := s.beaconKey.Get(key)
 	if treasureObj == nil {
 		treasureObj = s.CreateTreasure(key)
+		// if this call does not save the new treasure (failed condition), un-park it again
+		defer s.dropUnsavedInFlight(key, treasureObj)
 	}
 
 	guardID := treasureObj.StartTreasureGuard(true)
@@ -1973,6 +2003,8 @@ func (s *swamp) IncrementFloat64(key string, f float64, condition *IncrementFloa
 	treasureObj := s.beaconKey.Get(key)
 	if treasureObj == nil {
 		treasureObj = s.CreateTreasure(key)
+		// if this call does not save the new treasure (failed condition), un-park it again
+		defer s.dropUnsavedInFlight(key, treasureObj)
 	}
 
 	guardID := treasureObj.StartTreasureGuard(true)
